@@ -734,6 +734,18 @@ def _run_stage(job):
         run_mapping(cfg, output_path=cfg['extended_result_path'], log_path=cfg['log_path'],
                     hdf5_output_path=cfg['hdf5_result_path'])
         return None
+    if st == 'stats' and a.get('copy_data_over'):
+        # the non-default option of the same stage (the reference is first copied into the scratch directory):
+        # precompute_summary_stats_from_h5ad is precompute_summary_stats_from_h5ad_and_tree with the tree read
+        # from the file and copy_data_over=False
+        from cell_type_mapper.diff_exp.precompute_from_anndata import precompute_summary_stats_from_h5ad_and_tree
+        from cell_type_mapper.taxonomy.taxonomy_tree import TaxonomyTree
+        tree = TaxonomyTree.from_h5ad(h5ad_path=pathlib.Path(a['h5ad']), column_hierarchy=list(a['levels']))
+        precompute_summary_stats_from_h5ad_and_tree(
+            data_path=pathlib.Path(a['h5ad']), taxonomy_tree=tree, output_path=pathlib.Path(a['out']),
+            rows_at_a_time=a['rows_at_a_time'], normalization='raw', tmp_dir=a['tmp_dir'],
+            n_processors=a['n_processors'], copy_data_over=True)
+        return None
     if st == 'stats':
         from cell_type_mapper.diff_exp.precompute_from_anndata import precompute_summary_stats_from_h5ad
         precompute_summary_stats_from_h5ad(pathlib.Path(a['h5ad']), a['levels'], None, pathlib.Path(a['out']),
